@@ -12,6 +12,7 @@ CONSTANTS
   Disc = TRUE
   LockWrites = TRUE
   StopKA = TRUE
+  CloseAtomic = TRUE
   KeepSink = TRUE
 INVARIANTS TypeOK NoRace NoUseAfterFinish NoSplice PreFirst InOrder CompleteLast SseComplete PingsOnlyIfConfigured
            MmFramed MmOrder MmNoEmpty MmComplete
